@@ -336,6 +336,14 @@ def gaussHandlers : List (String × Handler) := [
       | [W, lam, m, sn, sd, wp, nb, bits] =>
         some (wordBitsOf W.toNat != 0 && 32 ≤ lam && 1 ≤ m && 0 < sn && 0 < sd && nb % 2 == 1 && 0 < wp && bits == wp * wordBitsOf W.toNat)
       | _ => none) }),
+  -- the mpfr_t centre handed to the constructor is the caller's object: unchanged (value, precision, limb storage) after
+  -- construction and after destruction of the sampler ("construction … and destruction access only their own buffers")
+  ("gctorarg", {
+    run := fun a => pure (match a with
+      | [W, d, ctor, whn] => some { model := [0, 0, 0], specOk := true,
+                                    cls := s!"W={W}:depth={d}:ctor={ctor}:{if whn == 0 then "after-construction" else "after-destruction"}" }
+      | _ => none),
+    spec := fun _ impl => pure (some (impl == [0, 0, 0])) }),
   ("glife", {
     run := fun a => pure (match a with
       | [W, d, _, m, _, _, _, _, ctor] => some { model := [], specOk := true, relational := true, cls := s!"W={W}:depth={d}:m={mClass m.toNat}:ctor={ctor}" }
